@@ -27,7 +27,8 @@
 (***************************************************************************)
 EXTENDS MQAbs, Json, IOUtils
 
-CONSTANT Strict
+CONSTANT Strict,
+         Ignore    \* ids that do not block in strict mode (a second pass of a check that looks for its own ids only)
 
 Rec == ndJsonDeserialize(IOEnv.TRACE)
 NRec == Len(Rec)
@@ -63,7 +64,7 @@ E == Rec[l]
 Is(e) == l <= NRec /\ E.e = e
 
 (* record requirement failures: block in strict mode *)
-Flag(bad) == /\ (Strict => bad = {})
+Flag(bad) == /\ (Strict => bad \ Ignore = {})
              /\ viol' = viol \cup bad
 
 Pending(t) == pend[t].op # "none"
